@@ -76,11 +76,6 @@ def create_linked_view(project, prefix=None, job_ids=None, path=None):
     for job in jobs:
         paths = os.path.join(path_function(job), "job")
         links[paths] = job.path
-    if not links:  # data space contains less than two elements
-        for job in project.find_jobs():
-            links["./job"] = job.path
-        assert len(links) < 2
-
     for link_path in links:
         if os.path.isabs(link_path) or os.pardir in link_path.split(os.sep):
             raise RuntimeError(f"The path '{link_path}' is not below the view prefix.")
